@@ -5,7 +5,7 @@
    Levels: text --lexer--> tokens --parser--> parse tree --visitor--> specification. The lexer (ANTLR-generated) is
    not modelled: the check runs the real lexer on the printed text and compares its tokens with print_spec.
    numbers are kept as their lexemes; float() only enters the JSON rendering used by the correspondence. *)
-From MT Require Import Prelude Lang Mal MalPrint MalThm MalParse MalParseThm MalInclude MalCompile.
+From MT Require Import Prelude Lang Mal MalPrint MalThm MalParse MalParseThm MalInclude MalRepeat MalCompile.
 
 (* -- printing any well-formed specification and compiling the tokens gives it back *)
 Theorem C04_roundtrip : forall ftoks s n depth,
@@ -104,6 +104,21 @@ Theorem C04_include_twice_partial : forall files P f m' Q S n,
   v_mal files (Datatypes.S (Datatypes.S n)) (P ++ DInclude f :: Q ++ S).
 Proof. exact include_twice. Qed.
 Print Assumptions C04_include_twice_partial.
+(* repeated includes in general: the file included twice may itself include any tree of files and may set defines; including
+   it a second time changes nothing as long as no define in between (in Q, flattened) assigns a key the file assigns
+   (the second include assigns the file's defines again) ... *)
+Theorem C04_include_twice : forall files f P g Q R mg fP fG fQ fR,
+  files g = Some mg -> flat files f mg = Some fG ->
+  flat_list files (flat files f) P = Some fP -> flat_list files (flat files f) Q = Some fQ -> flat_list files (flat files f) R = Some fR ->
+  (forall k, In k (define_keys fG) -> ~ In k (define_keys fQ)) ->
+  v_mal files (S f) (P ++ DInclude g :: Q ++ DInclude g :: R) = v_mal files (S f) (P ++ DInclude g :: Q ++ R).
+Proof. exact include_twice_any. Qed.
+Print Assumptions C04_include_twice.
+(* ... and that premise cannot be dropped: with such a define in between, the two layouts compile to different specifications *)
+Theorem C04_include_twice_needs_premise :
+  v_mal rn_files 3 [DInclude "f"; DDefine "id" "two"; DInclude "f"] <> v_mal rn_files 3 [DInclude "f"; DDefine "id" "two"].
+Proof. exact repeat_needs_disjoint. Qed.
+Print Assumptions C04_include_twice_needs_premise.
 
 (* -- non-vacuity: a specification with every construct is well-formed, prints to 169 tokens and compiles back *)
 Definition exS : fspec := mkFSpec
